@@ -322,6 +322,7 @@ def invoke(func, ns, cwd, kernel=None, env=None, stdin_text=None, timeout=25):
         if env is not None:
             os.environ.clear()
             os.environ.update(env)
+        os.environ["PWD"] = str(cwd)        # as a shell leaves it after `cd` (the logical path: symbolic links are not resolved)
         if stdin_text is not None:
             sys.stdin = io.StringIO(stdin_text)
         with contextlib.ExitStack() as st:
